@@ -111,6 +111,23 @@ Theorem C14_info_changes_nothing : forall s c,
 Proof. exact info_changes_nothing. Qed.
 Print Assumptions C14_info_changes_nothing.
 
+(* Unknown-outcome commits (storage.ErrUncertainResult: the engine cannot tell whether the write landed;
+   environment outcome CUnknown = takes effect iff its condition holds, CErr = lost) are part of every
+   theorem above (the label lists range over all environment outcomes). The lock object reports them
+   only as errors, never as an acquisition; and success is reported only for a write that took effect —
+   which is why the oracle treats every call that returned nil as an applied-write claim. *)
+Theorem C14_unknown_never_success : forall st k h b t,
+  o_res (do_create st k h b CUnknown t) <> ROk /\ o_res (do_update st k h b CUnknown t) <> ROk /\
+  o_res (do_create st k h b CErr t) <> ROk /\ o_res (do_update st k h b CErr t) <> ROk.
+Proof. exact unknown_never_success. Qed.
+Print Assumptions C14_unknown_never_success.
+
+Theorem C14_ok_implies_applied : forall s l,
+  (match l with LCreate _ _ _ _ _ | LUpdate _ _ _ _ _ => True | _ => False end) ->
+  o_res (run_op s l) = ROk -> o_applied (run_op s l) = true.
+Proof. exact ok_implies_applied. Qed.
+Print Assumptions C14_ok_implies_applied.
+
 (* the executable oracle used on the implementation's traces accepts every model trace *)
 Theorem C14_oracle_sound : forall c, c14_check c = true -> c14_oracle c = None.
 Proof. exact c14_oracle_sound. Qed.
@@ -175,3 +192,10 @@ Example C14_oracle_rejects :
      mkStep (LInfo 2) ROk false false None (Some rA) ([88], 6);
      mkStep (LUpdate 2 idB rB COk (TOk 8)) ROk true false None (Some rB) ([88], 8)]) = Some 0.
 Proof. vm_compute. reflexivity. Qed.
+
+(* a lost unknown-outcome Update after a competitor took the lock: error for the loser, the winner's record stays *)
+Example C14_lost_unknown_update :
+  let s := run (init x0) [LGet 1 GOk (TOk 5); LGet 2 GOk (TOk 6); LUpdate 2 idB rB COk (TOk 7)] in
+  o_res (run_op s (LUpdate 1 idA rA CUnknown (TOk 8))) = RErr /\
+  rec_bytes (store (step s (LUpdate 1 idA rA CUnknown (TOk 8)))) = Some rB.
+Proof. vm_compute. split; reflexivity. Qed.
